@@ -176,3 +176,27 @@ CHECKS["C04"] = {
     "outside": ["more than 4 free segments", "coordinates beyond +-8000 in the general harness (deltas must fit one Type 2 number; the big-delta case is a separate harness / known finding)", "non-dyadic reals"],
     "assumptions": ["reference interpreter from TN5177 (harness/cff/t2ref.go) judges well-formedness (operand counts, 48-entry stack, endchar)"],
 }
+
+CHECKS["C02"] = {
+    "harnesses": [
+        H("header", "c02.go", "VerifH_C02_header", ["accepted"], quick={"params": {"maxtables": 1}, "timeout": 280, "shards": 2}, thorough={"params": {"maxtables": 2, "maxextra": 2, "readtables": 1}, "timeout": 2400, "shards": 3}),
+        H("kern", "c02.go", "VerifH_C02_kern", ["accepted"], quick={"params": {"maxpairs": 1}, "timeout": 280, "shards": 3}, thorough={"params": {"maxpairs": 2}, "timeout": 2400, "shards": 3}),
+        H("cmap", "c02.go", "VerifH_C02_cmap", ["accepted", "subtable"], quick={"params": {"maxbody": 1, "maxtables": 1}, "timeout": 280, "shards": 2}, thorough={"params": {"maxbody": 3, "maxtables": 2}, "timeout": 2400, "shards": 3}),
+        H("cmap", "c09.go", "VerifH_C09_f12dec", ["accepted"], quick={"timeout": 200}),
+        H("cmap", "c09.go", "VerifH_C09_f06", ["format0", "format6"], quick={"timeout": 200}),
+        H("cff", ["c02.go", "c13.go"], "VerifH_C02_cffreaders", ["index", "charset", "fdselect", "private"], quick={"params": {"maxlen": 4, "privfile": 2}, "timeout": 280, "shards": 4}, thorough={"params": {"maxlen": 8, "privfile": 12}, "timeout": 2400, "shards": 4}),
+        H("cff", ["c05.go", "t2ref.go"], "VerifH_C05_bytes", ["accepted"], quick={"params": {"maxlen": 3}, "timeout": 280}, thorough={"params": {"maxlen": 5}, "timeout": 2400}),
+        H("cff", "c13.go", "VerifH_C13_dict_bytes", ["accepted"], quick={"params": {"maxlen": 2}, "timeout": 280}, thorough={"params": {"maxlen": 3}, "timeout": 2400}),
+        H("glyf", "c11.go", "VerifH_C11_fixpoint", ["accepted", "simple", "composite"], quick={"params": {"bytes": 16}, "timeout": 240}, thorough={"params": {"bytes": 24}, "timeout": 1500}),
+        H("hmtx", "c12.go", "VerifH_C12_hmtx_bytes", ["accepted"], quick={"params": {"maxhmtx": 8}, "timeout": 280}),
+        H("head", "c12.go", "VerifH_C12_head_bytes", ["accepted"], quick={"timeout": 200}),
+        H("maxp", "c12.go", "VerifH_C12_maxp_bytes", ["accepted"], quick={"timeout": 200}),
+        H("os2", "c12.go", "VerifH_C12_os2_bytes", ["accepted"], quick={"timeout": 280}),
+        H("post", "c12.go", "VerifH_C12_post_bytes", ["accepted"], quick={"timeout": 200}),
+        H("name", "c14.go", "VerifH_C14_name_bytes", ["accepted"], quick={"params": {"maxextra": 2, "maxrec": 1}, "timeout": 280}, thorough={"params": {"maxextra": 8, "maxrec": 2}, "timeout": 2400}),
+    ],
+    "bounds": {"quick": "arbitrary bytes per decoder, every implicit runtime check is an obligation: header.Read 12+16*1(+4) bytes; kern.Read <=2 subtables x <=1 pair; cmap.Decode <=1 encoding record + 10..18 byte body, then Get/Lookup/CodeRange/GetBest; cmap formats 0/6/12; glyf.Decode 16 bytes split into 2 glyphs (both loca formats) + SimpleGlyph.Decode; hmtx 36+8; head 54; maxp <=32; OS/2 68..100; post 32..36; name 6+12+2; CFF: readIndex <=8 bytes, readCharset <=8, readFDSelect <=9, readPrivate with arbitrary int32 (size, offset) over an 8-byte file under a 1 MiB allocation obligation, DICT <=2 bytes, Type 2 charstrings <=3 bytes",
+               "thorough": "larger byte bounds per decoder (see harness list)"},
+    "outside": ["sfnt.Read / cff.Read / gtab.Read on whole adversarial files (component readers only; the gtab subtable readers are exercised under C07)", "inputs of realistic size (several MB), time/allocation linearity beyond the per-path allocation obligation (e.g. quadratic work from overlapping kern subtables)", "termination beyond the unwinding bound of 100000 iterations per loop"],
+    "assumptions": ["counts inside the inputs are assumed small where a decoder materialises per-entry data (listed in each harness)", "allocation obligation: every make() on a path is at most 2^22 elements (1 MiB in the CFF Private DICT harness)"],
+}
